@@ -1621,6 +1621,11 @@ class Simulation:
         if verb < 0 or self.layered:
             return out if return_info else None
 
+        # Nothing to report if these fields were never computed (e.g., the
+        # gradient of a loaded simulation was taken from its stored result).
+        if not hasattr(self, f"_dict_{field}_info"):
+            return out if return_info else None
+
         # Loop over sources and frequencies.
         for src, freq in self._srcfreq:
             cinfo = self._dict_get(f"{field}_info", src, freq)
